@@ -11,7 +11,11 @@ rm -rf out/cov/raw; mkdir -p out/cov/raw out/cov/uncovered
 export VERIF_COVERAGE=1
 export LLVM_PROFILE_FILE=$PWD/out/cov/raw/%p-%8m.profraw
 for p in $props; do
-  VERIF_RUNS=${VERIF_COV_RUNS:-64} VERIF_BUDGET_S=${VERIF_COV_BUDGET_S:-300} ./check $p --tier quick 2>&1 | tail -2
+  if [ "${VERIF_COV_RUNS:-64}" = "full" ]; then
+    VERIF_BUDGET_S=${VERIF_COV_BUDGET_S:-300} ./check $p --tier quick 2>&1 | tail -2
+  else
+    VERIF_RUNS=${VERIF_COV_RUNS:-64} VERIF_BUDGET_S=${VERIF_COV_BUDGET_S:-300} ./check $p --tier quick 2>&1 | tail -2
+  fi
 done
 $LLVM/llvm-profdata merge -sparse out/cov/raw/*.profraw -o out/cov/all.profdata || exit 2
 BIN=target/cov-e1/release/plonksim
